@@ -11,7 +11,7 @@ from sim.util import derive_rng, pick, wpick
 
 LEVEL = 'exploration'
 BUDGET = {
-    'quick': dict(runs=72, wall=600, timeout=400, det=3, minimise=30),
+    'quick': dict(runs=72, wall=600, timeout=700, det=3, minimise=30),
     'thorough': dict(runs=1200, wall=3300, timeout=900, det=8, minimise=120),
 }
 RULE = ('Each run = one (config, tree, replica count D, representation: full / '
